@@ -5,6 +5,11 @@ import GambitV.Gen.PyNext
 import GambitV.Gen.PyChunks
 import GambitV.Gen.PyFindKmers
 import GambitV.Gen.PyCheckIndex
+import GambitV.Gen.PyKmerWrappers
+import GambitV.Gen.PyLabels
+import GambitV.Gen.PyReportable
+import GambitV.Gen.PyClassify
+import GambitV.Gen.PyResultItem
 import GambitV.Model.Bulk
 import GambitV.Model.Indexing
 import GambitV.Spec.Taxonomy
@@ -60,5 +65,40 @@ def findKmers (k : Nat) (pre s : List UInt8) (real : String) : Option String :=
 def checkIndex (n : Nat) (i : Int) : Option String :=
   cmp "_check_index" Gen.check_index.untranslatable (resStr toString (Gen.check_index (n : Int) i))
     (match GambitV.checkIndex n i with | .ok j => toString j | .error _ => "!IndexError")
+
+/-- `real` in the wire form of `c07.enc`: `ok:<n>` / `err:<kind>` (every error of the wrappers is a `ValueError`) -/
+def encReal (real : String) : String :=
+  if real.startsWith "ok:" then (real.drop 3).toString else "!ValueError"
+
+def kmerToIndex (s : List UInt8) (real : String) : Option String :=
+  cmp "kmer_to_index" Gen.kmer_to_index.untranslatable (resStr toString (Gen.kmer_to_index s)) (encReal real)
+
+def kmerToIndexRc (s : List UInt8) (real : String) : Option String :=
+  cmp "kmer_to_index_rc" Gen.kmer_to_index_rc.untranslatable (resStr toString (Gen.kmer_to_index_rc s)) (encReal real)
+
+def indexDtype (k : Nat) (real : String) : Option String :=
+  cmp "index_dtype" Gen.index_dtype.untranslatable (resStr optIntOf (Gen.index_dtype (k : Int))) real
+
+def fileId (path : List Char) (real : String) : Option String :=
+  cmp "get_file_id" Gen.get_file_id.untranslatable (resStr String.ofList (Gen.get_file_id path true true)) real
+
+def reportable (F : Forest) (t : Option Nat) (real : String) : Option String :=
+  cmp "reportable_taxon" Gen.reportable_taxon.untranslatable (resStr optNatOf (Gen.reportable_taxon F t)) real
+
+/-- the fields of a `ClassifierResult` that the per-property operations observe:
+`success/predicted/primary genome/closest genome/inconsistency warning present/not-closest warning present/failed` -/
+def clsStr (r : Py.ClassifierResult) : String :=
+  s!"{boolOf r.success}/{optNatOf r.predicted_taxon}/{optNatOf (r.primary_match.map (·.genome))}/{r.closest_match.genome}/" ++
+  s!"{boolOf (r.warnings.contains "Query matched ")}/{boolOf (r.warnings.contains "Primary genome match is not closest match.")}/{boolOf r.error.isSome}"
+
+def classify (F : Forest) (gtax ds : List Nat) (strict : Bool) (real : String) : Option String :=
+  cmp "classify" Gen.classify.untranslatable (resStr clsStr (Gen.classify F gtax (List.range gtax.length) ds strict)) real
+
+/-- the closest-genomes list and the closest match of `get_result_item` depend only on the distance row: evaluated on a one-taxon forest -/
+def closestList (ds : List Nat) (n : Nat) (real : String) : Option String :=
+  let F : Forest := { parent := [none], thr := [none], report := [true] }
+  cmp "get_result_item" Gen.get_result_item.untranslatable
+    (resStr (fun (r : Py.QueryResultItem) => natsOf (r.closest_genomes.map (·.genome)) ++ "/" ++ toString r.classifier_result.closest_match.genome)
+      (Gen.get_result_item F (List.replicate ds.length 0) () { classify_strict := false, chunksize := none, report_closest := (n : Int) } ds 0)) real
 
 end Driver.PyGen
